@@ -4,6 +4,7 @@ import (
 	"go/constant"
 	"go/token"
 	"go/types"
+	"strings"
 
 	"golang.org/x/tools/go/ssa"
 
@@ -709,11 +710,72 @@ func runStoreTTLChain(c *Ctx, rule string) {
 	ttlLink("(*pkg/sessions/redis.SessionStore).Save", func(cc *ssa.CallCommon) bool {
 		return cc.IsInvoke() && cc.Method.Name() == "Set"
 	}, 3, paramN(4), "Client.Set(ctx, key, value, exp)")
+	// the redis client wrappers: every go-redis SET-family command issued by the wrapper — directly or in a module helper
+	// it calls — is given the wrapper's own expiration parameter (a constant 0, KeepTTL or a computed value is not it)
+	const goRedis = "github.com/redis/go-redis/v9"
+	isRedisSet := func(cc *ssa.CallCommon) bool {
+		name, pk := "", ""
+		if cc.IsInvoke() {
+			name = cc.Method.Name()
+			if cc.Method.Pkg() != nil {
+				pk = cc.Method.Pkg().Path()
+			}
+		} else if sc := cc.StaticCallee(); sc != nil && sc.Pkg != nil {
+			name, pk = sc.Name(), sc.Pkg.Pkg.Path()
+		}
+		return pk == goRedis && strings.HasPrefix(name, "Set") && name != "SetRange" && name != "SetBit"
+	}
+	isDuration := func(t types.Type) bool { return t.String() == "time.Duration" }
 	for _, cl := range []string{"(*pkg/sessions/redis.client).Set", "(*pkg/sessions/redis.clusterClient).Set"} {
-		ttlLink(cl, func(cc *ssa.CallCommon) bool {
-			sc := cc.StaticCallee()
-			return sc != nil && sc.Name() == "Set" && sc.Pkg != nil && sc.Pkg.Pkg.Path() == "github.com/redis/go-redis/v9"
-		}, 4, paramN(4), "redis Set(ctx, key, value, expiration)")
+		w := c.Fn(rule, cl)
+		if w == nil || len(w.Params) < 5 {
+			continue
+		}
+		exp := w.Params[4]
+		n := 0
+		var scan func(g *ssa.Function, isExp func(v ssa.Value) bool, depth int)
+		scan = func(g *ssa.Function, isExp func(v ssa.Value) bool, depth int) {
+			for _, b := range g.Blocks {
+				for _, in := range b.Instrs {
+					ci, ok := in.(ssa.CallInstruction)
+					if !ok {
+						continue
+					}
+					cc := ci.Common()
+					if isRedisSet(cc) {
+						n++
+						key := "ttl|" + fnKey(w)
+						okArg, has := false, false
+						for _, a := range cc.Args {
+							if isDuration(a.Type()) {
+								has = true
+								okArg = isExp(a)
+							}
+						}
+						if has && okArg {
+							c.ok(rule, key, in, "redis "+walk.CalleeName(cc)+"(..., expiration)")
+						} else {
+							c.bad(rule, key, in, "a redis SET-family command writes the session entry with a lifetime other than the expiration handed down (the stored session's lifetime is not passed on unchanged here): a plain SET without it drops the key's TTL, so the entry outlives cookie-expire", nil, 0)
+						}
+						continue
+					}
+					if sc := cc.StaticCallee(); sc != nil && c.P.InModule(sc) && len(sc.Blocks) > 0 && depth < 2 && sc != g {
+						// a helper: which of its parameters receive the expiration
+						recv := map[ssa.Value]bool{}
+						for i, a := range cc.Args {
+							if isExp(a) && i < len(sc.Params) {
+								recv[sc.Params[i]] = true
+							}
+						}
+						scan(sc, func(v ssa.Value) bool { return recv[v] }, depth+1)
+					}
+				}
+			}
+		}
+		scan(w, func(v ssa.Value) bool { return v == ssa.Value(exp) }, 0)
+		if n == 0 {
+			c.R.Unknown(rule, "ttl|"+cl, c.P.Pos(w.Pos()), "no redis SET-family command found in the wrapper or its helpers")
+		}
 	}
 
 }
